@@ -32,7 +32,7 @@ func TestMain(m *testing.M) {
 		ID:    "C06",
 		Level: "exploration",
 		Rule: "rapid-generated scenes as data: 0..5 models over a pool of 1..3 meshes (gen.Mesh: triangle/point topology, 0..12 vertices (thorough: up to 40), any subset of 14 attributes of arity 1..4 incl. Joint (unsigned byte) and Weight, " +
-			"any index pattern, equal-by-value copies of a pool entry; rare class / pinned regression cases with 65 535 / 65 536 / 65 537 vertices), a pool of 0..4 textures (3 URIs x 4 samplers x 6 KHR_texture_transform variants, copies and one-aspect variants) " +
+			"any index pattern, equal-by-value copies of a pool entry; rare class / pinned regression cases with 65 535 / 65 536 / 65 537 vertices), a pool of 0..7 textures (3 URIs x 4 samplers x 6 KHR_texture_transform variants; copies and one-aspect variants behind other pointers) " +
 			"and 0..4 materials (fresh, equal-by-value copy, or copy differing in exactly one field among name, extras, alpha mode/cutoff, emissive, PBR presence/colour/factors, the four core textures incl. normal scale / occlusion strength, and 12 material extensions with their fields), " +
 			"optional translation/rotation/scale per model, 0..4 GPU instances, 0..2 lights, text or binary container (the other container is written too and must carry the same payload and document). " +
 			"Oracle: the harness's own GLB/JSON/base64 reader checks container and chunk lengths and padding, every index reference, bufferView/accessor ranges, component alignment, declared min/max against the stored elements, index values, per-primitive attribute counts, extension declarations; " +
@@ -812,6 +812,7 @@ func (c *Case) checkScene(p *parsed, descs []gen.MeshDesc, b *builder, o *vh.Obs
 	type modelOut struct {
 		model, slot, pool int
 		gmat              int // -1 none
+		gmesh             int
 		accSig            string
 	}
 	var outs []modelOut
@@ -943,7 +944,7 @@ func (c *Case) checkScene(p *parsed, descs []gen.MeshDesc, b *builder, o *vh.Obs
 		slotSig[slot] = sig
 		slotUse[slot]++
 		// material presence
-		mo := modelOut{model: mi, slot: slot, pool: -1, gmat: -1, accSig: sig}
+		mo := modelOut{model: mi, slot: slot, pool: -1, gmat: -1, gmesh: *node.Mesh, accSig: sig}
 		if inRange(md.Mat, len(c.Mats)) {
 			mo.pool = md.Mat
 		}
@@ -1086,6 +1087,17 @@ func (c *Case) checkScene(p *parsed, descs []gen.MeshDesc, b *builder, o *vh.Obs
 				continue
 			}
 			diff := diffMat(exp[a.pool], exp[bb.pool])
+			if len(diff) > 0 && a.gmat == bb.gmat && a.gmesh == bb.gmesh {
+				// the glTF mesh (geometry + material) is shared although the document holds a material
+				// with the second model's content: the mesh table, not the material table, merged them
+				for gi := range d.Materials {
+					if got, err := p.readMat(gi); err == nil && gi != a.gmat && len(diffMat(exp[bb.pool], got)) == 0 {
+						return vh.Failf("mesh-dedup/mesh-shared-across-different-materials",
+							"models %d and %d use one mesh pointer with different materials (pool entries %d and %d, differing in %v); glTF material %d holds the second one's content, but both nodes reference glTF mesh %d whose primitive has material %d: the second model is drawn with the first one's material",
+							a.model, bb.model, a.pool, bb.pool, diff, gi, a.gmesh, a.gmat)
+					}
+				}
+			}
 			if len(diff) > 0 && a.gmat == bb.gmat {
 				stored := "unreadable"
 				if got, err := p.readMat(a.gmat); err == nil {
@@ -1324,5 +1336,9 @@ func (p *parsed) readRefs(mi int) (map[string]int, error) {
 }
 
 func TestC06(t *testing.T) {
+	vh.Note("sensitivity (scratch copy with the material-equality repair, one mutant at a time, quick tier, all caught): vec2 byteLength too long / too short; vec3 min/max swapped / max not updated; indices always 16-bit; " +
+		"mesh table keyed without the material index; GLB total length without the BIN chunk header; one pad byte after / inside an odd 16-bit index view and after every vec4 view (reported as bufferview-misaligned/unexplained); " +
+		"node rotation w-first; instance scale/translation swapped; texture extension not declared; light position component dropped; JSON chunk padded with zeros; BIN chunk length unpadded; mesh data cache ignored; " +
+		"material table never matching; base64 payload truncated; point mode omitted; joints written as float; each of the repair's comparisons reverted. A correct alignment repair (pad to 4 bytes after the indices) passes without the known finding.")
 	vh.Drive(t, vh.Spec[Case]{Name: "scene", Quick: 60000, Thorough: 1200000, Gen: genCase, Run: runCase})
 }
